@@ -6,7 +6,7 @@ from pyvc import h5model, npmodel, models   # noqa: F401
 from pyvc.contract import Contract
 from pyvc.engine import LoopSpec, NS
 from pyvc.models import divmod_sym, where_idx
-from pyvc.sym import SArr, SObj, SInt, SOpaque, And, Or, Not, Implies, Z, to_z3, wrap
+from pyvc.sym import SArr, SObj, SInt, SOpaque, Sym, And, Or, Not, Implies, Z, to_z3, wrap
 from contracts.C01 import GetBestNdChunks
 
 EXPORT = "dclab/rtdc_dataset/export.py"
@@ -462,6 +462,7 @@ class ExportHdf5(Contract):
             # a key that exists only by a naming rule (not in the static key tables)
             "online_filter": {"area_um,deform soft limit": True, "target event count": 100},
             "user": {"my key": 5}, "filtering": {"enable filters": True}}})
+        self._cfg, self._cfg0 = cfg, {sec: dict(v) for sec, v in cfg.fields["_d"].items()}
         ds = ctx.obj("DS", {"_N": N, "_feats": {"deform": deform, "image": image}, "config": cfg,
                             "format": self.fmt, "features_innate": ["deform", "image"],
                             "filter": ctx.obj("Filter", {"all": filt}),
@@ -520,6 +521,13 @@ class ExportHdf5(Contract):
         posts.append(("a filtered export gets a new run identifier '<source id>-xxxx'; an unfiltered one none",
                       z3.BoolVal((isinstance(rid, str) and rid.startswith("run-0001-") and len(rid) == 13)
                                  if self.filtered else rid is None)))
+        def _same(a, b):
+            return a is b or (not isinstance(a, Sym) and not isinstance(b, Sym) and a == b)
+        now = self._cfg.fields["_d"]
+        posts.append(("the configuration of the source dataset is left as it was (the export works on copies)",
+                      z3.BoolVal(set(now) == set(self._cfg0)
+                                 and all(set(now[s_]) == set(self._cfg0[s_])
+                                         and all(_same(now[s_][k_], self._cfg0[s_][k_]) for k_ in now[s_]) for s_ in now))))
         posts.append(("logs and tables of the source are carried over under the prefix",
                       z3.BoolVal(hw.fields["_logs"].get("src_acq") == "LOGLINES"
                                  and hw.fields["_tables"].get("src_tab") == "TABLE")))
@@ -556,10 +564,48 @@ TRUSTED += [WriterCtor(), WriterExit()]
 
 
 # ---------------------------------------------------------------- replay on the real code
+def _replay_stacks(unit_name):
+    """the generator itself, on a sliceable array and on an object that can only be indexed event by event,
+    for selection sizes around the chunk size"""
+    import numpy as np
+    from dclab.rtdc_dataset.export import yield_filtered_array_stacks
+    from dclab.rtdc_dataset.writer import RTDCWriter
+
+    class Lazy:
+        def __init__(self, a):
+            self._a, self.shape, self.dtype = a, a.shape, a.dtype
+
+        def __getitem__(self, i):
+            if not isinstance(i, (int, np.integer)):
+                raise TypeError("event-by-event access only")
+            return self._a[i]
+
+        def __len__(self):
+            return len(self._a)
+    rng = np.random.RandomState(3)
+    item = (40, 60)
+    chunk = RTDCWriter.get_best_nd_chunks(item_shape=item, item_dtype=np.dtype("uint8"))[0]
+    n = 2 * chunk + 5
+    base = rng.randint(0, 255, size=(n,) + item).astype(np.uint8)
+    for lazy in (("indexable" in unit_name), ):
+        data = Lazy(base) if lazy else base
+        for m in (0, 1, 2, chunk - 1, chunk, chunk + 1, chunk + 2, 2 * chunk, 2 * chunk + 1):
+            idx = np.sort(rng.choice(n, size=m, replace=False)) if m else np.array([], dtype=int)
+            got = [np.array(st, copy=True) for st in yield_filtered_array_stacks(data, idx)]
+            cat = np.concatenate(got) if got else np.zeros((0,) + item, dtype=np.uint8)
+            if cat.shape != base[idx].shape or not np.array_equal(cat, base[idx]):
+                return {"failed": True, "detail": f"{'event-by-event' if lazy else 'sliceable'} data, chunk size {chunk}, "
+                                                  f"{m} selected events: the stacks hold {len(cat)} events"
+                                                  + ("" if len(cat) != m else " in the wrong order / with wrong content")}
+    return {"failed": False, "detail": "stacks concatenate to the selection for sizes around the chunk size"}
+
+
 def replay(unit_name, inp, obligation=""):
     import pathlib, tempfile, warnings
     import h5py, numpy as np
     import dclab
+    if unit_name.startswith("yield_filtered_array_stacks"):
+        return _replay_stacks(unit_name)
     import dclab.rtdc_dataset.writer as w
     import dclab.rtdc_dataset.export as e
     n = int(inp.get("N", 7))
